@@ -49,6 +49,11 @@ def tyOf (c : Ctx) : Expr → Ty
     | _ => .int
   | _ => .bool
 
+/-- type of the loop variable of `for .. in (e1, e2, ..)`: the type of the first item -/
+def enumTy (c : Ctx) : List Expr → Ty
+  | [] => .int
+  | e :: _ => tyOf c e
+
 def arithOp (t : Ty) : ArOp → BinOp
   | .add => if t == .int then .OP_INT_ADD else .OP_DBL_ADD
   | .sub => if t == .int then .OP_INT_SUB else .OP_DBL_SUB
@@ -160,9 +165,7 @@ def compile (c : Ctx) : Expr → List Instr
       (compile c' body ++ strToBool (tyOf c' body)) f
   | .forEnum q qe items body =>
     let f := 4 * c.vars.length
-    let ity := match items with
-      | [] => Ty.int
-      | e :: _ => tyOf c e
+    let ity := enumTy c items
     let c' := { c with vars := c.vars ++ [ity] }
     loopCode (quantCode (compile c qe) q)
       (compileList c items ++ [.push items.length, if ity == .str then .iterStartTextSet else .iterStartEnum])
@@ -265,7 +268,7 @@ def WF (env : Env) (c : Ctx) : LEnv → Expr → Prop
       (q = .num → WF env c l qe ∧ tyOf c qe = .int ∧ eval env l qe ≠ .undef) ∧
       WFList env c l items ∧ c.vars.length < 4 ∧ items.length < 1152921504606846976 ∧
       (∀ v, v ∈ evalList env l items →
-        WF env { c with vars := c.vars ++ [match items with | [] => Ty.int | e :: _ => tyOf c e] }
+        WF env { c with vars := c.vars ++ [enumTy c items] }
            { l with vars := l.vars ++ [v] } body ∧
         BoolWord (eval env { l with vars := l.vars ++ [v] } body))
   | l, .forOf q qe set body =>
@@ -307,10 +310,10 @@ def loopFree : Expr → Bool
   | .defined e => loopFree e
   | .and a b => loopFree a && loopFree b
   | .or a b => loopFree a && loopFree b
-  | .ofStr _ qe _ => loopFree qe
-  | .ofStrIn _ qe _ lo hi => loopFree qe && loopFree lo && loopFree hi
-  | .ofStrAt _ qe _ pos => loopFree qe && loopFree pos
-  | .ofRules _ qe _ => loopFree qe
+  | .ofStr q qe _ => q != .num || loopFree qe
+  | .ofStrIn q qe _ lo hi => (q != .num || loopFree qe) && loopFree lo && loopFree hi
+  | .ofStrAt q qe _ pos => (q != .num || loopFree qe) && loopFree pos
+  | .ofRules q qe _ => q != .num || loopFree qe
   | .pctStr _ _ | .pctRules _ _ | .forRange .. | .forEnum .. | .forOf .. => false
   | _ => true
 
